@@ -88,6 +88,8 @@ def run(ctx, rep):
     m8(F, rep)
     m10(F, rep)
     m12(F, rep)
+    from .c03 import t12 as _t12
+    _t12(F, rep)
     # M5: the parameters the analysis predicted with are the ones reconstruction reads back: every header field fits its width
     # (a truncated field is "accepted and then reconstructed differently"); same rule as C08/P3
     from . import ub
